@@ -283,7 +283,7 @@ impl CompactionWorker {
                 "Compaction thread found an immutable memtable to compact. Proceeding with \
                 memtable compaction."
             );
-            CompactionWorker::compact_memtable(db_state, db_fields_guard);
+            CompactionWorker::compact_memtable(db_state, db_fields_guard, true);
             return;
         }
 
@@ -464,6 +464,11 @@ impl CompactionWorker {
     /**
     Performs a compaction routine on the immutable memtable.
 
+    Set `allow_placement_below_level_zero` to false when a table compaction is in flight. The new
+    table file is only checked against the files of the current version, not against the outputs
+    that the in-flight compaction is still writing, so it must stay at level 0 where overlaps are
+    allowed.
+
     # Panics
 
     An immutable memtable must exist if this method is called.
@@ -471,6 +476,7 @@ impl CompactionWorker {
     fn compact_memtable(
         db_state: &PortableDatabaseState,
         db_fields_guard: &mut MutexGuard<GuardedDbFields>,
+        allow_placement_below_level_zero: bool,
     ) {
         assert!(db_fields_guard.maybe_immutable_memtable.is_some());
 
@@ -482,7 +488,11 @@ impl CompactionWorker {
             db_state,
             db_fields_guard,
             Arc::clone(&immutable_memtable),
-            Some(&base_version),
+            if allow_placement_below_level_zero {
+                Some(&base_version)
+            } else {
+                None
+            },
             &mut change_manifest,
         );
         db_fields_guard.version_set.release_version(base_version);
@@ -643,7 +653,11 @@ impl CompactionWorker {
                         let memtable_compaction_start = Instant::now();
                         let mut db_mutex_guard = db_state.guarded_db_fields.lock();
                         if db_mutex_guard.maybe_immutable_memtable.is_some() {
-                            CompactionWorker::compact_memtable(db_state, &mut db_mutex_guard);
+                            CompactionWorker::compact_memtable(
+                                db_state,
+                                &mut db_mutex_guard,
+                                false,
+                            );
 
                             // Notify waiting writers if there are any
                             db_state.background_work_finished_signal.notify_all();
